@@ -58,7 +58,15 @@ Definition oracle_step (script : nat -> option fault) (pre : obs) (st : sstep) :
         end
       else
         (* only Lock / Unlock move the lock flag *)
-        Bool.eqb (o_locked post) (o_locked pre)
+        Bool.eqb (o_locked post) (o_locked pre) &&
+        (* a raw request is relayed whatever it says, locked or not (the lock does not stop it): it changes nothing
+           the shim holds - in particular nothing is lost that unlocking would have to restore *)
+        match o with
+        | Forward _ _ _ =>
+            listN_eqb (o_mem pre) (o_mem post) && listN_eqb (o_cache pre) (o_cache post) &&
+            listN_eqb (o_ids pre) (o_ids post)
+        | _ => true
+        end
   end.
 
 Definition oracle (script : nat -> option fault) (obs0 : obs) (steps : list sstep) : bool :=
